@@ -15,6 +15,42 @@ const maxInlineDepth = 4
 func (fr *Frame) execCall(st *State, in *ssa.Call) {
 	res := fr.doCall(st, &in.Call, in.Pos(), in)
 	fr.setResults(in, res)
+	fr.rememberCall(st, &in.Call, res)
+}
+
+// rememberCall records the results of the most recent call to each named
+// function on this path (spec builtins last(f), last1(f)).
+func (fr *Frame) rememberCall(st *State, c *ssa.CallCommon, res []*Val) {
+	x := fr.x
+	name := ""
+	if c.IsInvoke() {
+		name = c.Method.Name()
+	} else if f := c.StaticCallee(); f != nil {
+		name = f.Name()
+	} else if u, ok := c.Value.(*ssa.UnOp); ok {
+		if g, ok := u.X.(*ssa.Global); ok {
+			name = g.Name()
+		}
+	}
+	if name == "" || len(res) == 0 {
+		return
+	}
+	if x.lastCalls == nil {
+		x.lastCalls = map[string][]*Cell{}
+	}
+	cells := x.lastCalls[name]
+	for i, r := range res {
+		if r == nil {
+			continue
+		}
+		if i >= len(cells) {
+			cells = append(cells, x.newCell("last_"+name, r.Ty, token.NoPos))
+		}
+		if len(leafSorts(cells[i].ty)) == len(r.L) {
+			st.cells[cells[i]] = &Val{Ty: cells[i].ty, L: r.L}
+		}
+	}
+	x.lastCalls[name] = cells
 }
 
 func (fr *Frame) setResults(in *ssa.Call, res []*Val) {
